@@ -361,8 +361,11 @@ def finish(ctx, rule, level_note, checker_cmd, extra=None, exhaustive=False):
         'wall_s': round(time.time() - ctx.t0, 2),
         'violations': nviol,
     }
-    os.makedirs(EVID, exist_ok=True)
-    path = os.path.join(EVID, ctx.prop + '.json')
+    # evidence/ is only ever written by a run against /repo itself; a run against a copy (TAMOC_REPO, used to try
+    # mutations and seeded changes) leaves its record under replays/ so that committed evidence stays clean
+    evdir = EVID if os.path.realpath(REPO) == os.path.realpath('/repo') else os.path.join(REPLAYS, 'evidence-of-copies')
+    os.makedirs(evdir, exist_ok=True)
+    path = os.path.join(evdir, ctx.prop + '.json')
     with open(path, 'w') as f:
         json.dump(ev, f, indent=1, default=str)
     validate_evidence(path)
